@@ -148,7 +148,8 @@ def gate():
 
 def cone_files(pid):
     """Theory files (relative to theories/) in the import cone of Props/<pid>.v."""
-    seen, todo = set(), ["Props/%s.v" % pid]
+    seen, todo = set(), ["Props/%s.v" % pid] + [
+        "Props/" + p.name for p in (THEORIES / "Props").glob("%s_*.v" % pid)]
     while todo:
         f = todo.pop()
         if f in seen or not (THEORIES / f).exists():
@@ -217,6 +218,9 @@ def props_check(pid, extra_files=()):
     to capture Print Assumptions.  Returns dict(theorems, assumptions, cmd, log)."""
     rel = "theories/Props/%s.v" % pid
     src = COQ / rel
+    # companion statement files Props/<pid>_*.v belong to the property as well
+    extra_files = list(extra_files) + sorted(
+        "theories/Props/" + p.name for p in (THEORIES / "Props").glob("%s_*.v" % pid))
     targets = [rel + "o"] + [f + "o" for f in extra_files]
     make(targets)
     work = workdir(pid)
@@ -225,6 +229,13 @@ def props_check(pid, extra_files=()):
     rc, out = sh(cmd, 900)
     if rc != 0:
         raise BuildError("coqc failed on %s" % rel, out)
+    for f in extra_files:
+        if "/Props/" in f:
+            cmd2 = ["coqc"] + COQ_FLAGS + ["-o", str(work / "recheck" / (Path(f).stem + ".vo")), str(COQ / f)]
+            rc2, out2 = sh(cmd2, 900)
+            if rc2 != 0:
+                raise BuildError("coqc failed on %s" % f, out2)
+            out += "\n" + out2
     txt = src.read_text()
     theorems = re.findall(r"^\s*(?:Theorem|Corollary|Lemma|Example)\s+(\w+)", txt, flags=re.M)
     for f in extra_files:
